@@ -61,3 +61,14 @@ pub fn instant(real: Instant) -> Instant {
       .map_or(real, |(b, n)| b + Duration::from_millis(n))
   })
 }
+
+/// Stand-in for the *name* `Instant` inside the three lease functions of
+/// `DiscoveryDB` (block-scoped `use ... as Instant`): `Instant::now()` there
+/// resolves to this, so the original statements stay live and unshadowed.
+pub struct VInstant;
+impl VInstant {
+  #[allow(clippy::new_ret_no_self)]
+  pub fn now() -> Instant {
+    instant(Instant::now())
+  }
+}
